@@ -10,6 +10,8 @@ for d in sorted(glob.glob(os.path.join(root, "seeded", "*"))):
     except Exception:
         continue
     name = os.path.basename(d)
+    if name.startswith("harmless"):
+        continue
     kind = (m.get("check") or {}).get("replay_kind") or "-"
     det = "caught" if m.get("detected") else "MISSED"
     note = m.get("history", "")
